@@ -69,6 +69,7 @@ import (
 
 	"github.com/osrg/gobgp/v4/api"
 	"github.com/osrg/gobgp/v4/internal/pkg/verifgen"
+	"github.com/osrg/gobgp/v4/internal/pkg/table"
 	"github.com/osrg/gobgp/v4/internal/pkg/verifkit"
 	"github.com/osrg/gobgp/v4/pkg/apiutil"
 	"github.com/osrg/gobgp/v4/pkg/config/oc"
@@ -449,7 +450,7 @@ func c18GenSet(s *verifgen.Src, name string, typ api.DefinedType, label func(str
 			ds.set.Prefixes = append(ds.set.Prefixes, p)
 			key := p.RtcPrefix
 			if p.IpPrefix != "" {
-				key = c18MaskedPrefix(p.IpPrefix)
+				key = p.IpPrefix // listed as it was written, host bits included
 			}
 			ds.want = append(ds.want, fmt.Sprintf("%s %d..%d", key, p.MaskLengthMin, p.MaskLengthMax))
 		}
@@ -509,7 +510,7 @@ func c18Listed(d *api.DefinedSet) []string {
 		for _, p := range d.Prefixes {
 			key := p.RtcPrefix
 			if p.IpPrefix != "" {
-				key = c18MaskedPrefix(p.IpPrefix)
+				key = p.IpPrefix
 			}
 			out = append(out, fmt.Sprintf("%s %d..%d", key, p.MaskLengthMin, p.MaskLengthMax))
 		}
@@ -1179,6 +1180,7 @@ type c18Route struct {
 	linkLoc  netip.Addr
 	viaMP    bool // next hop sent inside MP_REACH_NLRI (else NEXT_HOP)
 	binary   bool // sent as nlri_binary / pattrs_binary
+	stream   bool // added the way AddPathStream does (api2Path), not AddPath (api2apiutilPath)
 	sent     *api.Path
 	nlriWire []byte
 }
@@ -1372,6 +1374,17 @@ func c18AddRoute(srv *BgpServer, r *c18Route) (*c18sFail, *verifkit.Failure) {
 		return nil, verifkit.Failf("generator", "cannot build the request for %s %s: %v", r.fam, r.nlri, err)
 	}
 	r.sent = p
+	if r.stream {
+		// ... or the way the AddPathStream handler does (its own converter)
+		tp, err := api2Path(api.TableType_TABLE_TYPE_GLOBAL, proto.Clone(p).(*api.Path), false)
+		if err != nil {
+			return &c18sFail{f: verifkit.Failf("add-rejected", "api2Path (AddPathStream) refuses %v: %v", p, err), shapes: r.shapes()}, nil
+		}
+		if err := srv.addPathStream("", []*table.Path{tp}); err != nil {
+			return &c18sFail{f: verifkit.Failf("add-rejected", "AddPathStream refuses %v: %v", p, err), shapes: r.shapes()}, nil
+		}
+		return nil, nil
+	}
 	up, err := api2apiutilPath(proto.Clone(p).(*api.Path))
 	if err != nil {
 		return &c18sFail{f: verifkit.Failf("add-rejected", "api2apiutilPath refuses %v: %v", p, err), shapes: r.shapes()}, nil
@@ -1515,6 +1528,9 @@ func runC18Path(c c18sCase, st *verifkit.Stats) *verifkit.Failure {
 			continue
 		}
 		seen[key] = true
+		// (derived from what is already drawn, so that saved recipes keep their meaning)
+		r.stream = (len(r.nlriWire)+int(r.id)+i)%3 == 2
+		st.Label(map[bool]string{false: "handler/AddPath", true: "handler/AddPathStream"}[r.stream])
 		st.Label("family/" + r.fam.String())
 		st.Label("nlri/" + c18TypeName(r.nlri))
 		if e, ok := r.nlri.(*bgp.EVPNNLRI); ok {
